@@ -3,3 +3,4 @@ import MatidGen.AllGroups
 import MatidGen.Centring
 import MatidGen.WyckoffRule
 import MatidGen.DimRule
+import MatidGen.ClusterRule
